@@ -410,6 +410,7 @@ pub fn c01(ctx: &mut Ctx) {
     let q = ctx.quick();
     if !cfg!(miri) {
         history_interference(ctx);
+        direct_key_api(ctx);
     }
     wdec(ctx, DecPlan {
         fixed_bases: if q { 48 } else { 96 },
@@ -486,6 +487,7 @@ pub fn c10_decode_part(ctx: &mut Ctx) {
         negated_key_pairs(ctx);
         both_keys(ctx);
         ed_small_order(ctx);
+        direct_key_api(ctx);
     }
     // records for every key of the pools (edge scalars, leading-zero x), every key type
     let mut n = 0u64;
@@ -525,6 +527,9 @@ pub fn c10_decode_part(ctx: &mut Ctx) {
 
 pub fn c11_decode_part(ctx: &mut Ctx) {
     let q = ctx.quick();
+    if !cfg!(miri) {
+        direct_key_api(ctx);
+    }
     wdec(ctx, DecPlan {
         fixed_bases: if q { 60 } else { 120 },
         seeded_bases: if q { 60 } else { 2500 },
@@ -644,5 +649,129 @@ pub fn history_interference(ctx: &mut Ctx) {
             KT::Comb => go!(CombK),
             KT::Toy => go!(ToyK),
         }
+    }
+}
+
+
+/// The key traits called DIRECTLY (not through a record): `EnrKeyUnambiguous::decode_public`,
+/// `EnrPublicKey::{verify_v4, encode, encode_uncompressed, enr_key}`, `EnrKey::{sign_v4, public}` against
+/// RefPub / RefSig, for every built-in back-end.
+pub fn direct_key_api(ctx: &mut Ctx) {
+    use crate::keys::*;
+    use crate::refimpl::sig::{self, PubValidity};
+    use enr::{EnrKey, EnrKeyUnambiguous, EnrPublicKey};
+    fn go<KK: KeyKind>(ctx: &mut Ctx, scheme: Scheme, label: u64, content: &[u8])
+    where
+        KK::K: EnrKeyUnambiguous,
+    {
+        let secret = secret_from(scheme, label);
+        let rk = RefKey::new(scheme, secret);
+        let pubb = rk.pub_bytes();
+        let key = KK::make(scheme, &secret);
+        let ktn = KK::name();
+        let replay = || json!({"kind": "note", "what": "direct-key-api", "kt": KK::name(), "label": label, "content": crate::util::hex(content)});
+        ctx.count("evaluations");
+        ctx.count("direct-key-api");
+        let r = crate::util::guard(|| {
+            let mut bad: Vec<String> = Vec::new();
+            // public(): the independent derivation
+            let pk = key.public();
+            if pk.encode().as_ref() != pubb.as_slice() {
+                bad.push("public().encode() differs from the independent derivation".into());
+            }
+            if pk.enr_key() != scheme.enr_key() {
+                bad.push("enr_key() is not the scheme's key name".into());
+            }
+            let want_unc: Vec<u8> = match scheme {
+                Scheme::Secp => sig::secp_normalise(&pubb).map(|(_, u)| u.to_vec()).unwrap_or_default(),
+                _ => pubb.clone(),
+            };
+            if pk.encode_uncompressed().as_ref() != want_unc.as_slice() {
+                bad.push("encode_uncompressed() is not x||y / the key".into());
+            }
+            // decode_public of the same bytes gives a key that verifies RefSig's signature and nothing else
+            match <KK::K as EnrKeyUnambiguous>::decode_public(&pubb) {
+                Ok(dpk) => {
+                    let sg = rk.sign(content);
+                    if !dpk.verify_v4(content, &sg) {
+                        bad.push("verify_v4 rejects an independently made valid signature".into());
+                    }
+                    let mut other = content.to_vec();
+                    other.push(0);
+                    if dpk.verify_v4(&other, &sg) {
+                        bad.push("verify_v4 accepts a signature over other content".into());
+                    }
+                    if scheme == Scheme::Secp {
+                        let mut s64 = [0u8; 64];
+                        s64.copy_from_slice(&sg);
+                        if dpk.verify_v4(content, &sig::secp_high_s_twin(&s64)) {
+                            bad.push("verify_v4 accepts the high-S twin".into());
+                        }
+                    }
+                    for alt in [sg[1..].to_vec(), [sg.clone(), vec![0]].concat(), vec![], vec![0u8; sg.len()]] {
+                        if dpk.verify_v4(content, &alt) {
+                            bad.push(format!("verify_v4 accepts a {}-byte malformed signature", alt.len()));
+                        }
+                    }
+                    if dpk.encode().as_ref() != pubb.as_slice() {
+                        bad.push("decode_public(b).encode() != b".into());
+                    }
+                }
+                Err(e) => bad.push(format!("decode_public rejects a valid key: {e:?}")),
+            }
+            // the library's own signature verifies under the independent verifier (64 bytes, low-S for secp)
+            match key.sign_v4(content) {
+                Ok(sg) => {
+                    if !sig::verify(scheme, &pubb, content, &sg) {
+                        bad.push(format!("sign_v4 output does not verify independently ({} bytes)", sg.len()));
+                    }
+                }
+                Err(_) => bad.push("sign_v4 failed".into()),
+            }
+            // invalid encodings
+            for alt in [vec![], pubb[..pubb.len() - 1].to_vec(), [pubb.clone(), vec![1]].concat(), vec![0u8; pubb.len()], {
+                let mut t = pubb.clone();
+                t[0] = 5;
+                t
+            }] {
+                let valid = matches!(sig::pub_validity(scheme, &alt), PubValidity::Valid(_));
+                let open = matches!(sig::pub_validity(scheme, &alt), PubValidity::Unspec);
+                let got = <KK::K as EnrKeyUnambiguous>::decode_public(&alt).is_ok();
+                if !open && got != valid {
+                    bad.push(format!("decode_public({}) accepted={got}, RefPub valid={valid}", crate::util::hex(&alt)));
+                }
+            }
+            bad
+        });
+        match r {
+            Err(p) => ctx.violate("C03", "panic", &format!("direct-key-api/{}", crate::util::panic_sig(&p)), || p.clone(), replay),
+            Ok(bad) => {
+                for b in bad {
+                    let cls: String = b.chars().filter(|c| c.is_ascii_alphabetic() || *c == ' ' || *c == '_').take(50).collect::<String>().trim().replace(' ', "-");
+                    let prop = if b.contains("verify_v4") || b.contains("sign_v4") { "C01" } else if b.contains("decode_public") { "C11" } else { "C10" };
+                    ctx.violate(prop, "key-trait-method-misbehaves", &format!("{cls}/{ktn}"), || format!("{ktn}: {b}"), replay);
+                    if prop != "C11" {
+                        ctx.violate("C11", "key-trait-method-misbehaves", &format!("{cls}/{ktn}"), || format!("{ktn}: {b}"), replay);
+                    }
+                }
+            }
+        }
+    }
+    let n = ctx.vol(if ctx.quick() { 96 } else { 6000 });
+    for i in 0..n {
+        if !ctx.mine(i) {
+            continue;
+        }
+        if ctx.expired() {
+            return;
+        }
+        let mut r = rng_for(ctx.seed, &["direct-key-api"], i);
+        let len = [0usize, 1, 31, 32, 33, 64, 135, 136, 137, 300][(i % 10) as usize];
+        let content = crate::util::rand_bytes(&mut r, len);
+        let label = if i % 7 == 0 { (i % 3) | (1 << 63) } else { 5000 + i % 11 };
+        go::<K256K>(ctx, Scheme::Secp, label, &content);
+        #[cfg(feature = "libsecp")]
+        go::<LibsecpK>(ctx, Scheme::Secp, label, &content);
+        go::<EdK>(ctx, Scheme::Ed, label & !(1 << 63), &content);
     }
 }
